@@ -203,8 +203,4 @@ def specRespond {Resp : Type} (load : Text → Res) (h : Text → Option Res →
 def bareRespond {Resp : Type} (h : Text → Option Res → Resp) (σ : St Text Res) (u : Nat) : Option Resp :=
   (σ.docs u).map fun t => h t none
 
-/-- request kinds of the harness whose handler reads Server.resolved -/
-def readsResolved (k : String) : Bool :=
-  k == "completion" || k == "hover" || k == "definition" || k == "references"
-
 end HL.Bg
